@@ -8,6 +8,7 @@ from vlib import *
 import pyed
 
 
+THOROUGH_ROUNDS = 4      # repetitions of the conformance part in the thorough tier (fresh random draws each)
 def gen(rng, quick):
     ops = [{"op": "info"}]
     lens = list(range(0, 97)) + [1000]
